@@ -211,6 +211,12 @@ Definition get_or_new_obj (a : astate) (x : addr) : option (astate * obj) :=
 Definition so_set_balance (a : astate) (x : addr) (o : obj) (b : Z) : option astate :=
   a1 ← j_append a (EBalance x (o_bal o)); set_obj a1 x (set_bal o b).
 
+(* the same SetBalance called from inside journal.revert: the entry it appends lies beyond the
+   index the revert loop is at and is cut off by j.entries = j.entries[:snapshot]; what remains
+   of it is its addDirty *)
+Definition so_set_balance_in_revert (a : astate) (x : addr) (o : obj) (b : Z) : option astate :=
+  a1 ← add_dirty a x; set_obj a1 x (set_bal o b).
+
 (* createObjectChange.revert: remove the entry, shift the later ones left, re-index them *)
 Fixpoint reindex (l : list (addr * obj)) (i : nat) (m : gmap addr nat) : gmap addr nat :=
   match l with
@@ -237,10 +243,10 @@ Definition revert_entry (a : astate) (e : entry) : option astate :=
   | ESuicide x prev prevbal =>
       '(a1, so) ← get_obj a x;
       match so with
-      | Some o => let o' := set_suic o prev in a2 ← set_obj a1 x o'; so_set_balance a2 x o' prevbal
+      | Some o => let o' := set_suic o prev in a2 ← set_obj a1 x o'; so_set_balance_in_revert a2 x o' prevbal
       | None => Some a1
       end
-  | EBalance x prev => '(a1, o) ← live_obj a x; so_set_balance a1 x o prev   (* SetBalance: journals again *)
+  | EBalance x prev => '(a1, o) ← live_obj a x; so_set_balance_in_revert a1 x o prev   (* SetBalance: journals again *)
   | ENonce x prev => '(a1, o) ← live_obj a x; set_obj a1 x (set_nonce o prev)
   | EStorage x k prev => '(a1, o) ← live_obj a x; o' ← obj_setstate o k prev; set_obj a1 x o'
   | ECode x ph pc => '(a1, o) ← live_obj a x; set_obj a1 x (set_code o ph pc)
